@@ -77,8 +77,8 @@ impl Universe {
             addrs.insert(format!("a{}", i + 1), cands[(i + off) % 6]);
         }
         // a larger population of peers for histories that need many distinct addresses
-        for i in 7..=48u16 {
-            let a: SocketAddr = if i % 2 == 0 { format!("203.0.113.{}:{}", i, 1000 + i).parse().unwrap() } else { format!("[2001:db8:1::{:x}]:{}", i, 2000 + i).parse().unwrap() };
+        for i in 7..=330u16 {
+            let a: SocketAddr = if i % 2 == 0 { format!("203.0.{}.{}:{}", 113 + i / 256, i % 256, 1000 + i).parse().unwrap() } else { format!("[2001:db8:1::{:x}]:{}", i, 2000 + i).parse().unwrap() };
             addrs.insert(format!("a{}", i), a);
         }
         addrs.insert("srv".to_string(), "192.0.2.53:3478".parse().unwrap());
@@ -190,6 +190,8 @@ struct Run<'u> {
     sent: BTreeMap<i64, (String, Vec<u8>)>,
     cancelled: BTreeSet<i64>,
     last_until_ms: Option<i64>,
+    // microsecond mode: clock units are microseconds (instants with sub-millisecond parts); configuration values stay in ms
+    us: bool,
     seal_ext: bool,
     other_tid_outstanding: bool,
     // client/server exchange mode: datagrams in flight per transaction, network capacity, the server's key
@@ -202,19 +204,30 @@ struct Run<'u> {
 }
 
 impl<'u> Run<'u> {
+    fn unit(&self, n: u64) -> Duration {
+        if self.us { Duration::from_micros(n) } else { Duration::from_millis(n) }
+    }
+    /// a configuration value (always given in milliseconds x scale) as a Duration, and in clock units for the log
+    fn cfg_dur(&self, v: u64) -> (Duration, u64) {
+        let d = Duration::from_millis(v * self.scale);
+        (d, if self.us { v * self.scale * 1000 } else { v * self.scale })
+    }
     fn at(&self, units: i64) -> Instant {
-        // units may be -1 (probe): one millisecond before the base whatever the scale
+        // units may be -1 (probe): one clock unit before the base whatever the scale
         if units < 0 {
-            self.base - Duration::from_millis(1)
+            self.base - self.unit(1)
+        } else if self.us {
+            self.base + self.unit(units as u64)
         } else {
-            self.base + Duration::from_millis(units as u64 * self.scale)
+            self.base + self.unit(units as u64 * self.scale)
         }
     }
     fn rel_ms(&self, i: Instant) -> i64 {
+        let f = |d: Duration| if self.us { d.as_micros() as i64 } else { d.as_millis() as i64 };
         if i >= self.base {
-            (i - self.base).as_millis() as i64
+            f(i - self.base)
         } else {
-            -((self.base - i).as_millis() as i64)
+            -f(self.base - i)
         }
     }
     fn obs(&self) -> Value {
@@ -293,7 +306,11 @@ impl<'u> Run<'u> {
                 let d = s["d"].as_u64().unwrap_or(1);
                 let target = self.last_until_ms.map(|u| u + s["delta"].as_i64().unwrap_or(0));
                 match target {
-                    Some(t) if t > (self.clock * self.scale) as i64 => {
+                    // (in microsecond mode a far wake-up - the idle hour - would leave the 32-bit range of the trace checker)
+                    Some(t) if self.us && t > self.clock as i64 && t - (self.clock as i64) < 100_000_000 => {
+                        self.clock = t as u64;
+                    }
+                    Some(t) if !self.us && t > (self.clock * self.scale) as i64 => {
                         self.clock = (t as u64 + self.scale - 1) / self.scale;
                     }
                     _ => self.clock += d,
@@ -305,8 +322,12 @@ impl<'u> Run<'u> {
                 let to = self.u.addrs[s["to"].as_str().unwrap()];
                 let pay = s["pay"].as_str().unwrap().to_string();
                 let attrs = payload_attrs(&pay, self.seed);
-                let now_units = s.get("at").and_then(|x| x.as_i64()).unwrap_or(self.clock as i64);
-                ev["now_ms"] = json!(now_units * self.scale as i64);
+                let mut now_units = s.get("at").and_then(|x| x.as_i64()).unwrap_or(self.clock as i64);
+                if let Some(b) = s.get("back").and_then(|x| x.as_i64()) {
+                    // an instant sampled earlier than the one last given to poll (instants need not be monotonic)
+                    now_units = (self.clock as i64 - b).max(0);
+                }
+                ev["now_ms"] = json!(if self.us { now_units } else { now_units * self.scale as i64 });
                 if cls == "request" {
                     let ti = s["tid"].as_i64().unwrap();
                     let tid = self.u.tids[&ti];
@@ -486,7 +507,7 @@ impl<'u> Run<'u> {
             }
             "poll" => {
                 let units = s.get("at").and_then(|x| x.as_i64()).unwrap_or(self.clock as i64);
-                ev["now_ms"] = json!(if units < 0 { -1 } else { units * self.scale as i64 });
+                ev["now_ms"] = json!(if units < 0 { -1 } else if self.us { units } else { units * self.scale as i64 });
                 self.poll_at(units)
             }
             "cancel" | "cancel_rt" => {
@@ -509,14 +530,16 @@ impl<'u> Run<'u> {
                 let ti = s["tid"].as_i64().unwrap();
                 let tid = self.u.tids[&ti];
                 let (rto, n, last) = (s["rto"].as_u64().unwrap(), s["n"].as_u64().unwrap() as u32, s["last"].as_u64().unwrap());
-                ev["rto_ms"] = json!(rto * self.scale);
-                ev["last_ms"] = json!(last * self.scale);
+                let ((rto_d, rto_u), (last_d, last_u)) = (self.cfg_dur(rto), self.cfg_dur(last));
+                ev["rto_ms"] = json!(rto_u);
+                ev["last_ms"] = json!(last_u);
                 match self.agent.mut_request_transaction(tid) {
                     None => json!({"k": "none"}),
                     Some(mut r) => {
                         let sc = self.scale;
                         let rr = catch_unwind(AssertUnwindSafe(|| {
-                            r.configure_timeout(Duration::from_millis(rto * sc), n, Duration::from_millis(last * sc))
+                            let _ = sc;
+                            r.configure_timeout(rto_d, n, last_d)
                         }));
                         match rr {
                             Ok(()) => json!({"k": "ok"}),
@@ -702,6 +725,7 @@ pub fn run_script(script: &Value) -> Vec<Value> {
         sent: BTreeMap::new(),
         cancelled: BTreeSet::new(),
         last_until_ms: None,
+        us: script["us"].as_bool().unwrap_or(false),
         seal_ext: script["seal"].as_str() == Some("ext"),
         other_tid_outstanding: script["other_tid"].as_str() == Some("outstanding"),
         exchange: script["exchange"].as_bool().unwrap_or(false),
